@@ -57,6 +57,7 @@ def uop (name : String) (j : Json) : Except String UOp := do
   | "replace" => return .replace (← strs (j.getObjValD "us"))
   | "setitem" => return .setItem (← getInt j "i") (← getStr j "u")
   | "setslice" => return .setSlice (← optInt j "a") (← optInt j "b") (← optInt j "st") (← strs (j.getObjValD "us"))
+  | "reverse" => return .reverse
   | _ => throw s!"unknown list op {name}"
 
 def top (name : String) (j : Json) : Except String TOp := do
@@ -74,6 +75,7 @@ def top (name : String) (j : Json) : Except String TOp := do
   | "replace" => return .replace (← tierVals (j.getObjValD "vs"))
   | "setitem" => return .setItem (← getInt j "i") (← tierVal (j.getObjValD "v"))
   | "setslice" => return .setSlice (← optInt j "a") (← optInt j "b") (← tierVals (j.getObjValD "vs"))
+  | "reverse" => return .reverse
   | _ => throw s!"unknown trackers op {name}"
 
 def sop (name : String) (j : Json) : Except String SOp := do
